@@ -458,6 +458,12 @@ def pre_proofs(ctx):
     ctx["log"]("call graph: %d nodes, %d defined, %d RT entries, %d forbidden, %d reachable from the entries"
                % (len(G["names"]), len(G["defined"]), len(G["entries"]), len(G["forbidden"]),
                   len(callgraph.reachable(G, G["entries"]))))
+    oc = G.get("objcheck", {})
+    ctx["log"]("object-code cross-check: %d reachable functions disassembled, %d objects identical to the driven build, %d discrepancies"
+               % (oc.get("functions_checked", 0), oc.get("objects_identical_to_plain_build", 0), len(oc.get("discrepancies", []))))
+    if oc.get("discrepancies"):
+        raise ctx["BuildError"]("GCC's .ci call graph does not agree with the object code:\n" +
+                                "\n".join(oc["discrepancies"][:12]))
     if probs:
         # one line per offending last edge (caller -> forbidden symbol), shortest path first;
         # kept short because vcheck stores the tail of the message in the replay file
@@ -490,6 +496,7 @@ def extra_evidence(ctx):
         "externals_reached": sorted(x for x in R if x not in ds),
         "indirect_sites_reached": sorted(set("%s: %s @ %s" % (r, G["dem"][a], s) for a, s, r in G["sites"] if a in R)),
         "excluded_edges": ["%s -> %s" % (G["dem"][a], G["dem"][b]) for a, b in G["excluded"] if a in R],
+        "object_code_cross_check": G.get("objcheck"),
         "static_problems": _diag["problems"][:10]}}
 
 TECHNIQUE = ("translator + Coq: GCC's post-optimisation call graph of the library and of every instantiated port-sugar "
